@@ -91,6 +91,9 @@ func solveAll(d *Driver, fvcs []*FuncVC, dir string, timeoutMs int, keepText boo
 				tmo := timeoutMs
 				if o.Expect == "sat" && tmo > 3000 {
 					tmo = 3000 // vacuity covers: a short budget is enough, "unknown" is not a failure
+					if strings.Contains(o.Name, "/vacuity:block-") {
+						tmo = 1500
+					}
 				}
 				switch o.Kind {
 				case "nil-deref", "nil-arg", "nil-elem", "index", "slice-bounds", "type-assert", "div-zero", "nil-map-write", "make-len", "alloc-bounded", "panic", "lock":
